@@ -42,7 +42,10 @@ ASSUMPTIONS = ["protobuf (upb) deterministic serialization and ListFields/HasFie
 
 APIS = ["serde", "optimize", "optimize_noinline", "rewrite_default", "rewrite_empty", "rewrite_custom", "fold_constants",
         "fold_constants_infer",
-        "remove_unused_nodes", "remove_unused_functions", "convert_version", "convert_version_capi", "replace_functions"]
+        "remove_unused_nodes", "remove_unused_functions", "convert_version", "convert_version_capi", "replace_functions",
+        # the function list also holds another overload of the same operator (and an unrelated function), the called
+        # overload first / last: both entry forms must still expand the call that the model makes
+        "replace_functions_ovl_last", "replace_functions_ovl_first"]
 # docstring says in place (or returns None): the object given must hold the result afterwards
 IN_PLACE = {"fold_constants", "fold_constants_infer", "remove_unused_nodes", "remove_unused_functions", "convert_version",
             "convert_version_capi"}
@@ -172,11 +175,21 @@ def _call(api, obj, info, is_proto):
     if api == "convert_version_capi":
         vc.convert_version(obj, 26, fallback=True)
         return obj
-    if api == "replace_functions":
+    if api.startswith("replace_functions"):
         fn = MZ.the_custom_function(info["opset"])
+        fns = [fn]
+        if api != "replace_functions":
+            other = MZ.the_custom_function(info["opset"])
+            other.overload = "slow"
+            del other.node[:]
+            other.node.extend([onnx.helper.make_node("Neg", ["a"], ["r"])])
+            unrelated = onnx.helper.make_function("custom.dom", "Unrelated", ["a"], ["r"],
+                                                  [onnx.helper.make_node("Abs", ["a"], ["r"])],
+                                                  [onnx.helper.make_opsetid("", info["opset"])])
+            fns = [fn, unrelated, other] if api.endswith("ovl_last") else [other, unrelated, fn]
         if is_proto:
-            return rp.replace_functions(obj, [fn])
-        rp.replace_functions_inplace(obj, [ir.from_proto(fn)])
+            return rp.replace_functions(obj, fns)
+        rp.replace_functions_inplace(obj, [ir.from_proto(f) for f in fns])
         return obj
     raise AssertionError(api)
 
@@ -200,6 +213,8 @@ _BAIT = {
     "convert_version": {"fo", "d"},
     "convert_version_capi": {"fo", "d"},
     "replace_functions": {"q"},
+    "replace_functions_ovl_last": {"q"},
+    "replace_functions_ovl_first": {"q"},
 }
 _INFERS = {"optimize", "optimize_noinline", "fold_constants_infer"}
 _KEEP_FN = {"fold_constants", "fold_constants_infer", "remove_unused_nodes", "remove_unused_functions", "rewrite_default", "rewrite_custom",
@@ -267,7 +282,7 @@ def _protected(api, base, carriers, key):
         if name == "":
             return not api.startswith("convert_version")
         if name == "custom.dom":
-            return api != "replace_functions"
+            return not api.startswith("replace_functions")
         if name == "local.dom":
             return base == "function" and api in _KEEP_FN
         return False
@@ -498,7 +513,7 @@ def execute(item):
 
     # (e) in place or not
     # (the proto form of an in-place API holds the result iff parity (a) holds, since Rp is Mp there)
-    if api in IN_PLACE or api == "replace_functions":      # IR form of replace_functions: replace_functions_inplace
+    if api in IN_PLACE or api.startswith("replace_functions"):      # IR form of replace_functions: replace_functions_inplace
         if Ri is not Mi or (transformed and after_i == before_i):
             viols.append(_viol("not-in-place", api, "entry=ir", {"transformed": transformed}))
     elif after_i != before_i:
